@@ -140,7 +140,6 @@ def depth_obligations(pid, mir_text, info, add, violations, inconclusive):
         binfo["mir_sha256"] = hashlib.sha256(cbs[name].encode()).hexdigest()[:12]
         info["check_block"][name] = binfo
         info["functions_encoded"].append(f"checker::{name}::check_block (MIR sha256 {binfo['mir_sha256']}, {binfo['blocks']} basic blocks, {binfo['round_paths']} paths per job, inner loops {binfo['inner_loops_havocked']} abstracted by havoc)")
-        info["functions_encoded"].append(f"checker::{name} spawn() ({sinfo['blocks']} basic blocks, {sinfo['paths']} paths, loops {sinfo['loops_havocked']} havocked) and its boundary-filter closure ({sinfo['filter_closures']})")
         seen_kinds = set()
         for o in res:
             add(o["obligation"], o["result"], **({"witness": o["witness"]} if o.get("witness") else {}))
